@@ -39,6 +39,8 @@ func C04(c *core.Ctx) {
 	c04InputsKept(c)
 	c04InputsRoundedInPlace(c)
 	c04CleanCopies(c)
+	c04ReadBeforeNormalised(c)
+	c04CalcWritesNormaliserInputs(c)
 	c04ScenarioNotes(c)
 	c04ReadOnly(c)
 	_ = p
